@@ -55,6 +55,7 @@ inductive Stmt
   | effect (what : String)                      -- lock / unlock / hook / broadcast: trace only
   | deferEffect (what : String)
   | ite (c : Expr) (t e : Stmt)
+  | scope (body : Stmt)                         -- `func() { … }()`: a block with its own deferred calls
   | while (c : Expr) (body : Stmt)
   | ret0
   | ret1 (a : Expr)
@@ -362,6 +363,13 @@ def exec (ext : Ext F) : Nat → Stmt → State F → Outcome F
   | _, .deferEffect w, s => .normal { s with defers := w :: s.defers }
   | fuel, .ite c t e, s => bindS (evalE ext c s) fun v s1 => asBoolS v fun b =>
       if b then exec ext fuel t s1 else exec ext fuel e s1
+  | fuel, .scope b, s =>
+    -- the block runs with an empty defer stack; when it ends (falling off its end or through `return`) its deferred
+    -- effects fire, last in first out, and the enclosing function goes on
+    match exec ext fuel b { s with defers := [] } with
+    | .normal s1 => .normal { s1 with trace := s1.defers.reverse ++ s1.trace, defers := s.defers }
+    | .returned _ s1 => .normal { s1 with trace := s1.defers.reverse ++ s1.trace, defers := s.defers }
+    | .error m => .error m
   | 0, .while _ _, _ => .error "out of fuel"
   | fuel + 1, .while c body, s => bindS (evalE ext c s) fun v s1 => asBoolS v fun b =>
       if b then (exec ext fuel body s1).andThen fun s2 => exec ext fuel (.while c body) s2
@@ -638,6 +646,11 @@ theorem evalE_bin_gen (op : BinOp) (h1 : op ≠ .land) (h2 : op ≠ .lor) (a b :
 @[minigo] theorem exec_ite (fuel : Nat) (c : Expr) (t e : Stmt) : exec ext fuel (.ite c t e) σ =
     bindS (evalE ext c σ) fun v s1 => asBoolS v fun b => if b then exec ext fuel t s1 else exec ext fuel e s1 := by
   simp [exec]
+@[minigo] theorem exec_scope (fuel : Nat) (b : Stmt) : exec ext fuel (.scope b) σ =
+    (match exec ext fuel b (State.mk vs cs tr [] ar) with
+     | .normal s1 => .normal { s1 with trace := s1.defers.reverse ++ s1.trace, defers := df }
+     | .returned _ s1 => .normal { s1 with trace := s1.defers.reverse ++ s1.trace, defers := df }
+     | .error m => .error m) := by simp [exec]
 @[minigo] theorem exec_while_zero (c : Expr) (b : Stmt) : exec ext 0 (.while c b) σ = .error "out of fuel" := by simp [exec]
 @[minigo] theorem exec_while_succ (fuel : Nat) (c : Expr) (body : Stmt) : exec ext (fuel + 1) (.while c body) σ =
     bindS (evalE ext c σ) fun v s1 => asBoolS v fun b =>
@@ -698,6 +711,7 @@ def atomicOps : Stmt → List String
   | .effect w => [w]
   | .deferEffect w => ["defer " ++ w]
   | .ite c t e => atomicOpsE c ++ atomicOps t ++ atomicOps e
+  | .scope b => atomicOps b
   | .while c b => atomicOpsE c ++ atomicOps b
   | .ret2 a b => atomicOpsE a ++ atomicOpsE b
   | _ => []
